@@ -131,8 +131,18 @@ impl Partition {
     { unimplemented!() }
 }
 
-// --- A-dep(xxhash32): the key hash is a function of the key bytes ---
-pub uninterp spec fn hash32(key: Seq<u8>) -> u32;
+// --- A-dep(xxhash32): XxHash32::oneshot is a function of (seed, bytes); the key hash is that function with the FIXED seed 0
+// (proved of the real streaming::utils::hash::calculate_32 in unit partitioning, [C17.key.hash.fixed]: a per-process seed would
+// send the same key to different partitions after a restart) ---
+pub uninterp spec fn xxh32(seed: u32, data: Seq<u8>) -> u32;
+pub open spec fn hash32(key: Seq<u8>) -> u32 { xxh32(0, key) }
+pub struct XxHash32;
+impl XxHash32 {
+    #[verifier::external_body]
+    pub fn oneshot(seed: u32, data: &[u8]) -> (r: u32)
+        ensures r == xxh32(seed, data@),
+    { unimplemented!() }
+}
 pub mod hash {
     use vstd::prelude::*;
     #[verifier::external_body]
